@@ -8,7 +8,7 @@
     [D] is SHA-256 as a function from byte strings to digests. *)
 From Coq Require Import List NArith ZArith Bool.
 From Verif Require Import Lib.Bytes Obj.Base Obj.CheckReader Obj.CheckReaderProofs
-  Obj.Store Obj.StoreProofs Obj.Mem Obj.MemProofs Obj.ObjGen Gen.ObjSkel.
+  Obj.Store Obj.StoreProofs Obj.StoreLive Obj.Mem Obj.MemProofs Obj.ObjGen Gen.ObjSkel.
 Import ListNotations.
 Local Open Scope N_scope.
 
@@ -116,6 +116,36 @@ Theorem C18_fs_no_deadlock : forall D objs0 inputs sched,
                       (sfs (runs D objs0 inputs sched)) tid t <> None.
 Proof. exact fs_no_deadlock. Qed.
 Print Assumptions C18_fs_no_deadlock.
+
+(** Every effective step uses up a budget fixed by the inputs: in any
+    schedule whatsoever there are at most [sum (calls of the reader + 13)]
+    of them (no livelock, every call takes a bounded number of own steps). *)
+Theorem C18_fs_work_bounded : forall D objs0 inputs sched,
+  (work (runs D objs0 inputs sched) <= list_sum (map (fun s => length s + 13) inputs))%nat.
+Proof. exact fs_work_bounded. Qed.
+Print Assumptions C18_fs_work_bounded.
+
+(** From every reachable state the schedule can be continued so that all
+    calls return. *)
+Theorem C18_fs_can_always_finish : forall D objs0 inputs sched,
+  wf_objs D objs0 ->
+  exists more, all_done (runs D objs0 inputs (sched ++ more)).
+Proof. exact fs_can_always_finish. Qed.
+Print Assumptions C18_fs_can_always_finish.
+
+(** No spurious failure: when no system call fails, a returned call whose
+    input ended cleanly with content [c] returned the key of [c], and the
+    object is there. *)
+Theorem C18_fs_clean_input_returns_key : forall D objs0 inputs sched tid t s0 c r,
+  (forall x, is_bytes (D x) /\ length (D x) = 32%nat) ->
+  wf_objs D objs0 -> fault_free sched ->
+  nth_error (sthr (runs D objs0 inputs sched)) tid = Some t ->
+  nth_error inputs tid = Some s0 ->
+  drain s0 = (c, REof) ->
+  res t = Some r ->
+  r = ROk (Hk D c) /\ lookup_key (Hk D c) (objs (sfs (runs D objs0 inputs sched))) <> None.
+Proof. exact fs_clean_input_returns_key. Qed.
+Print Assumptions C18_fs_clean_input_returns_key.
 
 (** With a 32-byte digest the "invalid key generated" panic is unreachable. *)
 Theorem C18_fs_no_panic : forall D objs0 inputs sched tid t,
